@@ -89,9 +89,9 @@ func (dst *Buffer[D]) Append(src *Buffer[D]) {
 	} else {
 		dst.data = dst.data[:offset+length]
 	}
-	for i := 0; i < length; i++ {
-		dst.SetSample(i+offset, src.Sample(i))
-	}
+	// copy, like append on plain slices, reads every source sample before
+	// it can be overwritten when src is a window of dst's own storage.
+	copy(dst.data[offset:], src.data[:length])
 	alignCapacity(&dst.data, dst.Channels(), dst.Cap())
 }
 
